@@ -141,8 +141,8 @@ func (self * summaryStats) calculateMeanDaily(mp *ModelParams, now flap.EpochTim
 	var dayOffset int
 	lastFullRow := len(self.Rows)-1
 	if lastFullRow >= 0 && self.Rows[lastFullRow].Entries < int(rdd) {
-		lastFullRow -= 1
 		dayOffset = self.Rows[lastFullRow].Entries
+		lastFullRow -= 1
 	}
 	if (lastFullRow <0) {
 		return 0,ESSNODATA
